@@ -85,6 +85,17 @@ def check_case(case, rec):
         if not same:
             raise Violation(f"{deliv} delivers {tok.spans(t2)}, list mode {tok.spans(ref)}", case)
     T = tok.spans(ref)
+    # generator mode must equal list mode also when the generator is requested first and only
+    # consumed after the same tokenizer completed a list run on another stream (here: a prefix)
+    frames_g, validator_g, source_g = tok.make_stream(pat, "obj")
+    tk_g = tok.make_tokenizer(validator_g, p)
+    g = tk_g.tokenize(source_g, generator=True)
+    _f, _v, other = tok.make_stream(pat[: n // 2], "obj")
+    tk_g.tokenize(other)
+    late = tok.spans(list(g))
+    if late != T:
+        raise Violation(f"generator requested, another stream tokenized, generator consumed: {late}, list mode {T}", case)
+    classes.add("late_generator")
     for plen in range(0, n + 1):
         _f, _s, tp, _a = _run(pat[:plen], p, tok.DELIVS[plen % 3])
         Tp = tok.spans(tp)
